@@ -326,11 +326,12 @@ impl FailSafe {
         Ok(())
     }
 
-    pub fn disarm<'a>(
-        &mut self,
-        session_mode: &SessionMode,
-        fabrics: &'a mut Fabrics,
-    ) -> Result<&'a mut Fabric, Error> {
+    /// Check whether `disarm` (i.e. `CommissioningComplete`) would be accepted from the
+    /// given session, without changing the fail-safe state.
+    ///
+    /// Returns the index of the fabric the fail-safe context is associated with - the
+    /// fabric which `CommissioningComplete` is about to commit.
+    pub fn check_disarm(&self, session_mode: &SessionMode) -> Result<NonZeroU8, Error> {
         if matches!(self.state, State::Idle) {
             error!("Received Fail-Safe Disarm without it being armed");
             return Err(ErrorCode::FailSafeRequired.into());
@@ -345,6 +346,16 @@ impl FailSafe {
             NocFlags::empty(),
             NocFlags::empty(),
         )?;
+
+        Ok(fab_idx)
+    }
+
+    pub fn disarm<'a>(
+        &mut self,
+        session_mode: &SessionMode,
+        fabrics: &'a mut Fabrics,
+    ) -> Result<&'a mut Fabric, Error> {
+        let fab_idx = self.check_disarm(session_mode)?;
 
         let fabric = fabrics.fabric_mut(fab_idx)?;
 
